@@ -252,13 +252,80 @@ def specs():
     }
 
 
+def ext_memcpy_ascending(interp, st, i, args):
+    """memcpy as called by memmove: an ascending copier is only correct when the destination does not start
+    inside the source range (dst <= src or dst >= src + n)"""
+    from absint import ext_memcpy
+    d, s_, n = args[0], args[1], args[2]
+    if isinstance(d, PtrVal) and isinstance(s_, PtrVal) and d.obj is not None and d.obj == s_.obj and isinstance(n, IntVal):
+        nl = st.force_u(n)
+        ok = st.cons.entails_le(d.off, s_.off) or st.cons.entails_le(s_.off + nl, d.off) or \
+            st.cons.entails_eq(nl, 0)
+        interp.oblige('overlap:forward-copy', i, ok,
+                      None if ok else 'memmove hands overlapping ranges with src < dst < src + n to the ascending '
+                      'memcpy (dst offset %r, src offset %r, n %r): the tail of the source is overwritten before it '
+                      'is read' % (d.off, s_.off, nl), 'memcpy')
+    return ext_memcpy(interp, st, i, args)
+
+
+def ascending_rule(rep, mod):
+    """memcpy copies in ascending address order in every loop (memmove relies on it)"""
+    f = mod.fn('memcpy')
+    n = 0
+    for L in f.loops:
+        for ph in [i for i in L['header'].insts if i.op == 'phi' and i.ty.get('k') == 'ptr']:
+            for (bb, v) in ph.incoming:
+                if f.bmap[bb] in L['blocks']:
+                    r, off = trace_const(f, v)
+                    if r.k == 'inst' and r.id == ph.id:
+                        n += 1
+                        rep.inst('R-MEMCPY-ASCENDING', 'memcpy', 'cursor-steps-upwards', off > 0, ph.where(),
+                                 None if off > 0 else 'a copy cursor of memcpy moves by %d bytes per iteration' % off)
+    if n < 2:
+        raise AnalysisBroken('memcpy: copy cursors not recognised (%d)' % n)
+
+
+def sibling_rule(rep, mods):
+    """R-SIBLING: case-sensitive and case-insensitive twins share one skeleton (loops, cursor steps, exits, result)"""
+    def features(f):
+        out = []
+        for L in sorted(f.loops, key=lambda l: l['header'].idx):
+            steps = []
+            for ph in [i for i in L['header'].insts if i.op == 'phi' and i.ty.get('k') == 'ptr']:
+                for (bb, v) in ph.incoming:
+                    if f.bmap[bb] in L['blocks']:
+                        r, off = trace_const(f, v)
+                        if r.k == 'inst' and r.id == ph.id:
+                            steps.append('+%d' % off)
+                        elif r.k == 'inst' and f.insts[r.id].op == 'phi':
+                            steps.append('other-cursor%+d' % off)
+                        else:
+                            steps.append('recomputed')
+            out.append(('loop', tuple(sorted(steps)), len(L['exits'])))
+        rets = []
+        for r in f.returns():
+            if r.ops:
+                v = r.ops[0]
+                i = f.inst_of(v)
+                rets.append(v.k if i is None else i.op)
+        out.append(('returns', tuple(sorted(rets))))
+        return out
+    for a, b in (('strstr', 'strcasestr'), ('strcmp', 'strcasecmp'), ('strncmp', 'strncasecmp'), ('strlwr', 'strupr')):
+        fa, fb = mods[a].fn(a), mods[b].fn(b)
+        xa, xb = features(fa), features(fb)
+        ok = xa == xb
+        rep.inst('R-SIBLING', a + '/' + b, 'same-skeleton', ok, '%s:%d' % (fa.file, fa.line),
+                 None if ok else 'the twins %s and %s no longer share their loop/cursor structure: %s vs %s'
+                 % (a, b, xa, xb), fact={'features': [str(x) for x in xa]})
+
+
 def movedir(rep, mod):
     """memmove: bounds for overlapping ranges in both orders (abstract interpretation) and copy direction: in the
     dst-above-src case both cursors start at the far end and move downwards, each access after the decrement"""
     f = mod.fn('memmove')
     where = '%s:%d' % (f.file, f.line)
     for above, label in ((True, 'dst-above-src'), (False, 'dst-below-src')):
-        it = Interp(mod, externals=dict(LIBC_EXT))
+        it = Interp(mod, externals=dict(LIBC_EXT, memcpy=ext_memcpy_ascending))
         run = ContractRun(it, [])
         run.run('memmove', FnSpec(setup=overlap(above),
                                   pre=(N30 + ['arg2 >= 1', 'dst_off - src_off <= arg2 - 1']) if above else N30,
@@ -442,9 +509,13 @@ def run(rep, repo, tier):
         a['loops_closed_by_invariant'] = a.get('loops_closed_by_invariant', 0) + it.loops_seen
     movedir(rep, mods['memmove'])
     wide_access_rule(rep, mods['memcpy'])
+    ascending_rule(rep, mods['memcpy'])
+    sibling_rule(rep, mods)
     uchar_rule(rep, mods)
     rep.floor('R-LIBC:bounds', 40)
     rep.floor('R-LIBC:post', 30)
     rep.floor('R-UCHAR', 3)
     rep.floor('R-WORDALIGN', 2)
     rep.floor('R-MEMMOVE', 3)
+    rep.floor('R-SIBLING', 4)
+    rep.floor('R-MEMCPY-ASCENDING', 1)
